@@ -45,6 +45,9 @@ type Table struct {
 	File int    `json:"file"`
 	Rank int    `json:"rank"` // references only go to tables of lower rank (keeps the graph acyclic)
 	Cols []Col  `json:"cols"`
+	// a table re-opened in a second file: columns [Part2From:] are declared in file Part2File (0 = not split)
+	Part2File int `json:"part2file,omitempty"`
+	Part2From int `json:"part2from,omitempty"`
 }
 
 type Model struct {
@@ -135,15 +138,25 @@ func (m *Model) render() (map[string]string, map[string]int, map[string]int) {
 		w(appName + ":")
 		n := 0
 		for ti, t := range m.Tables {
-			if t.File != f {
+			split := t.Part2From > 0 && t.Part2From < len(t.Cols) && t.Part2File != t.File && t.Part2File < m.NFiles
+			cols := t.Cols
+			switch {
+			case t.File == f && split:
+				cols = t.Cols[:t.Part2From]
+			case t.File == f:
+			case split && t.Part2File == f:
+				cols = t.Cols[t.Part2From:]
+			default:
 				continue
 			}
 			for i := 0; i < m.Gap[ti]; i++ {
 				w("")
 			}
-			tl[t.Name] = line
+			if t.File == f {
+				tl[t.Name] = line
+			}
 			w("    !table " + t.Name + ":")
-			for _, c := range t.Cols {
+			for _, c := range cols {
 				cl[t.Name+"."+c.Name] = line
 				w("        " + c.Name + " <: " + c.typeText())
 			}
@@ -270,7 +283,7 @@ func projectionMatches(m *Model, p []ptable, tl, cl map[string]int) string {
 		if t == nil || len(t.Cols) != len(pt.cols) {
 			return "table " + pt.name
 		}
-		if pt.line != tl[pt.name]-1 {
+		if pt.line != tl[pt.name]-1 && t.Part2From == 0 {
 			return fmt.Sprintf("line of %s: %d, written on %d", pt.name, pt.line, tl[pt.name])
 		}
 		for _, pc := range pt.cols {
@@ -550,6 +563,9 @@ func (r *runner) run(kind string, models []*Model, note string) {
 			if sameLineTables(v.m) {
 				c.Hist("shape:tables-on-equal-lines")
 			}
+			if sameLineColumns(v.m) {
+				c.Hist("shape:columns-of-a-split-table-on-equal-lines")
+			}
 			chain = cat0
 			if xerr != "" {
 				chainOK = false
@@ -575,10 +591,11 @@ func (r *runner) run(kind string, models []*Model, note string) {
 			var derr string
 			if xerr == "" {
 				cat1, derr = execAll(cat0.clone(), dstmts)
-				ok := judgeDelta(c, v.m, next.m, dstmts, cat0, cat1, derr, rp, "delta")
-				if i == 0 && !ok {
+				if !judgeDelta(c, v.m, next.m, dstmts, cat0, cat1, derr, rp, "delta") {
 					chainOK = false
 				}
+			} else {
+				chainOK = false
 			}
 			for _, k := range editKinds(v.m, next.m) {
 				c.Hist("edit:" + k)
@@ -588,7 +605,8 @@ func (r *runner) run(kind string, models []*Model, note string) {
 				base := chain.clone()
 				chain, cerr = execAll(chain.clone(), dstmts)
 				if i > 0 {
-					// the second step of a chain, run on what the first step left behind
+					// the second step of a chain, run on what the first step left behind (only when both steps are
+					// fine on their own: what is reported here is a defect of the composition)
 					if !judgeDelta(c, v.m, next.m, dstmts, base, chain, cerr, rp, "chain") {
 						chainOK = false
 					}
